@@ -18,7 +18,7 @@ package main
 //	         W = f (not interrogated) | r<err><dj> (interrogated, running) | s<err><atGlobal><dj>.<local names>
 //	         (dj: the recorded error's data is accepted by json.Marshal as it is)
 //	payload: conc <gs> <n>   — the concurrent kind (see c16Conc)
-//	result : <class>,<class>,… <still>     class of every command step: ok|error|PANIC|HANG|NOJSON,
+//	result : R:<class>,<class>,… <still>     class of every command step: ok|error|PANIC|HANG|NOJSON,
 //	         still = class of a following `status`
 //
 // Only the reply classes are compared: never message texts or JSON contents.
@@ -379,6 +379,26 @@ func c16NewCase(scn string, gsGiven bool) *c16Case {
 		c.start(1, "perr", c16ProgErrNest)
 	case "errinf":
 		c.start(1, "perr", c16ProgErrInf)
+	// suspended at an active break point reached DURING a pending step-over / step-out
+	// (the step branch of VisitState; such stops exist since fix ea3a1ee)
+	case "stepbp1": // step over the top-level call, break point two calls deep
+		c.dbg.SetBreakPoint("nest", 14)
+		c.dbg.SetBreakPoint("nest", 6)
+		c.start(1, "nest", c16ProgNest)
+		c.quiesce()
+		c.dbg.Continue(1, util.StepOver)
+	case "stepbp2": // step out of the innermost function, break point on its next line
+		c.dbg.SetBreakPoint("nest", 2)
+		c.dbg.SetBreakPoint("nest", 3)
+		c.start(1, "nest", c16ProgNest)
+		c.quiesce()
+		c.dbg.Continue(1, util.StepOut)
+	case "stepbp3": // step over a call inside a function, break point two calls further in
+		c.dbg.SetBreakPoint("nest", 10)
+		c.dbg.SetBreakPoint("nest", 2)
+		c.start(1, "nest", c16ProgNest)
+		c.quiesce()
+		c.dbg.Continue(1, util.StepOver)
 	case "finished":
 		c.start(1, "short", c16ProgShort)
 	case "finerr":
@@ -398,7 +418,7 @@ func c16NewCase(scn string, gsGiven bool) *c16Case {
 }
 
 var c16Scenarios = []string{"none", "bos", "top", "running", "nest1", "nest2", "nest3", "errsusp", "finished", "finerr", "two",
-	"errmap", "errnest", "errinf"}
+	"errmap", "errnest", "errinf", "stepbp1", "stepbp2", "stepbp3"}
 
 func (c *c16Case) end() {
 	c16Cases.Delete(c.gs)
@@ -706,8 +726,10 @@ func c16Run(payload string) string {
 	if len(f) < 3 {
 		return "bad-payload"
 	}
+	// results carry the prefix "R:" — a command that hung is a class of the compared result here
+	// (found with the harness's own generous, load-tolerant time bounds), not a stuck harness
 	if f[0] == "conc" {
-		return c16Conc()
+		return "R:" + c16Conc()
 	}
 	if f[2] == "?" {
 		return "RECORD-TIMEOUT" // the harness could not record this case (counted; not a statement about the code)
@@ -726,7 +748,7 @@ func c16Run(payload string) string {
 		rec = []c16Step{}
 	}
 	_, _, res := c16Exec(f[0], f[1] == "1", lines, rec, f[2])
-	return res
+	return "R:" + res
 }
 
 // ---- generator
@@ -769,6 +791,17 @@ func c16Gen(g *Gen) {
 		k++
 		if k%sn != si || k < start {
 			g.Emit("not-in-this-shard") // never written nor executed: only counts the index
+			return
+		}
+		// circuit breaker: once commands have hung 8 times in this process (each one is already a
+		// reported disagreement) the remaining cases are not executed — every hang costs seconds
+		if atomic.LoadInt32(&c16Hangs) >= 8 {
+			g.Count("skipped-after-hangs")
+			var un []c16Step
+			for _, l := range lines {
+				un = append(un, c16Step{l, "0", "?"})
+			}
+			g.Emit(c16Payload(scn, gsGiven, "?", un))
 			return
 		}
 		// the recording run is bounded as a whole (it runs outside the per-case time limit)
@@ -835,6 +868,17 @@ func c16Gen(g *Gen) {
 			emit(scn, true, "inject 1 a "+ex, "inject 1 b 1 + 1", "extract 1 a dst")
 		}
 	}
+	// a write-lock command, then read commands, while a thread waits at a break point it reached
+	// during a step-over / step-out (a read lock kept by the waiting thread is a HANG)
+	for _, scn := range []string{"stepbp1", "stepbp2", "stepbp3"} {
+		emit(scn, true, "break prog:1", "status", "describe 1")
+		emit(scn, true, "rmbreak nest", "status")
+		emit(scn, true, "inject 1 nv 1+1", "extract 1 nv dst", "cont 1 stepover", "break prog:1", "status")
+		emit(scn, true, "status", "describe 1", "disablebreak nest:6", "cont 1 stepout", "breakonstart", "status")
+	}
+	emit("nest1", true, "break nest:2", "cont 1 stepover", "break prog:1", "status", "describe 1")
+	emit("nest3", true, "break nest:3", "cont 1 stepout", "rmbreak nest", "status")
+	emit("top", true, "break prog:6", "cont 1 stepover", "cont 1 stepover", "!release", "break prog:1", "status")
 	// commands from two goroutines at once
 	nconc := 3
 	if g.Thorough() {
@@ -856,6 +900,7 @@ func c16Gen(g *Gen) {
 				continue
 			}
 			errData := scn == "errmap" || scn == "errnest" || scn == "errinf"
+			stepBp := strings.HasPrefix(scn, "stepbp")
 			args := c16ArgsSmall
 			if g.Thorough() && gsGiven && !errData {
 				args = c16Args
@@ -872,6 +917,9 @@ func c16Gen(g *Gen) {
 				}
 				for _, a := range args {
 					for _, b := range args {
+						if stepBp && !g.Thorough() && g.R.Intn(4) != 0 {
+							continue // quick tier: the two-argument matrix is sampled in the step/break-point scenarios
+						}
 						g.Count("len2")
 						emit(scn, gsGiven, cmd+" "+a+" "+b)
 					}
@@ -887,6 +935,9 @@ func c16Gen(g *Gen) {
 			for _, t := range tids {
 				for _, v := range vars {
 					for _, x := range third {
+						if stepBp && !g.Thorough() && g.R.Intn(4) != 0 {
+							continue
+						}
 						g.Count("len3")
 						emit(scn, gsGiven, "extract "+t+" "+v+" "+x)
 						emit(scn, gsGiven, "inject "+t+" "+v+" "+x)
@@ -1029,6 +1080,27 @@ func c16Tool(args []string) int {
 		fmt.Printf("  (%s, %s, %s)%s\n", strconv.Quote(k), strconv.Quote(types[k]), strconv.Quote(checks[types[k]]), sep)
 	}
 	fmt.Println("]")
+	// defer statements in ecalDebugger.VisitState (its unlocks must not be deferred: the thread waits inside)
+	defers := -1
+	if dfile, err := goparser.ParseFile(fset, filepath.Join(repoDir(), "interpreter", "debug.go"), nil, 0); err == nil {
+		for _, d := range dfile.Decls {
+			if fd, ok := d.(*ast.FuncDecl); ok && fd.Name.Name == "VisitState" && fd.Recv != nil && fd.Body != nil {
+				defers = 0
+				ast.Inspect(fd.Body, func(n ast.Node) bool {
+					if _, ok := n.(*ast.DeferStmt); ok {
+						defers++
+					}
+					return true
+				})
+			}
+		}
+	}
+	if defers < 0 {
+		fmt.Fprintln(os.Stderr, "VisitState not found in interpreter/debug.go")
+		return 2
+	}
+	fmt.Println("/-- number of `defer` statements in ecalDebugger.VisitState (interpreter/debug.go) -/")
+	fmt.Printf("def visitStateDefers : Nat := %d\n", defers)
 	fmt.Println("end Ecal.Gen.C16")
 	return 0
 }
